@@ -172,4 +172,571 @@ theorem correct_add_wrong (ps : Pairs) :
     simp only [List.countP_cons, List.length_cons]
     by_cases h : a.1 = a.2 <;> simp [h] <;> omega
 
+/-! ### ratios -/
+
+theorem natCast_bne_zero (n : Nat) : ((n : Q) != 0) = (n != 0) := by
+  by_cases h : n = 0
+  · subst h; rfl
+  · have : (n : Q) ≠ 0 := fun e => h (Rat.natCast_eq_zero_iff.mp e)
+    rw [bne_iff_ne.mpr this, bne_iff_ne.mpr h]
+
+theorem divNan0_natCast (a b : Nat) : divNan0 (a : Q) (b : Q) = ratio0 a b := by
+  unfold divNan0 ratio0
+  by_cases h : b = 0
+  · subst h; simp
+  · have : (b : Q) ≠ 0 := fun e => h (Rat.natCast_eq_zero_iff.mp e)
+    simp [h, this]
+
+theorem precision_eq (ps : Pairs) (c : Nat) :
+    divNan0 (tp ps c : Q) ((tp ps c : Q) + (fp ps c : Q)) = precision ps c := by
+  rw [← Rat.natCast_add, divNan0_natCast]; rfl
+
+theorem recall_eq (ps : Pairs) (c : Nat) :
+    divNan0 (tp ps c : Q) (support ps c : Q) = recall ps c := divNan0_natCast _ _
+
+/-! ### sums of counts -/
+
+theorem sum_map_natCast {α : Type} (l : List α) (g : α → Nat) :
+    (l.map fun c => (g c : Q)).sum = ((l.map g).sum : Nat) := by
+  induction l with
+  | nil => rfl
+  | cons a l ih => simp only [List.map_cons, List.sum_cons, ih, Rat.natCast_add]
+
+theorem countP_lt_succ {α : Type} (ps : List α) (f : α → Nat) (C : Nat) :
+    (ps.countP fun p => f p < C) + (ps.countP fun p => f p == C) = ps.countP fun p => f p < C + 1 := by
+  induction ps with
+  | nil => rfl
+  | cons a l ih =>
+    simp only [List.countP_cons, beq_iff_eq, decide_eq_true_eq]
+    rw [← ih]
+    repeat' split
+    all_goals omega
+
+theorem sum_range_countP {α : Type} (ps : List α) (f : α → Nat) (C : Nat) :
+    ((List.range C).map fun c => ps.countP fun p => f p == c).sum = ps.countP fun p => f p < C := by
+  induction C with
+  | zero => simp
+  | succ C ih =>
+    rw [List.range_succ, List.map_append, List.sum_append, ih]
+    simp only [List.map_cons, List.map_nil, List.sum_cons, List.sum_nil, Nat.add_zero]
+    exact countP_lt_succ ps f C
+
+theorem sum_support_range (ps : Pairs) (C : Nat) (h : ∀ p ∈ ps, p.2 < C) :
+    ((List.range C).map fun c => (support ps c : Q)).sum = (ps.length : Q) := by
+  rw [sum_map_natCast]
+  unfold support
+  rw [sum_range_countP ps (·.2) C, List.countP_eq_length.mpr]
+  intro p hp; simpa using h p hp
+
+theorem sum_filter_of_zero {α : Type} (l : List α) (P : α → Bool) (g : α → Q)
+    (h : ∀ c ∈ l, P c = false → g c = 0) : ((l.filter P).map g).sum = (l.map g).sum := by
+  induction l with
+  | nil => rfl
+  | cons a l ih =>
+    have ih' := ih (fun c hc => h c (List.mem_cons_of_mem _ hc))
+    by_cases hp : P a = true
+    · simp [hp, ih']
+    · have hp' : P a = false := by simpa using hp
+      have := h a (List.mem_cons_self) hp'
+      simp [hp', ih', this, Rat.zero_add]
+
+/-! ### the PRF state as a list of rows -/
+
+theorem prf_rows (C : Nat) (t a b : Nat → Q) (P : Q × Q × Q → Bool) :
+    ((((List.range C).map t).zip (((List.range C).map a).zip ((List.range C).map b))).filter P)
+      = ((List.range C).filter fun c => P (t c, a c, b c)).map fun c => (t c, a c, b c) := by
+  rw [List.zip_map', List.zip_map', List.filter_map]; rfl
+
+theorem present_eq_filter (ps : Pairs) (C : Nat) :
+    ((List.range C).filter fun c => ((support ps c : Q) != 0 || (predicted ps c : Q) != 0))
+      = present ps C := by
+  unfold present
+  apply List.filter_congr; intro c _
+  rw [natCast_bne_zero, natCast_bne_zero]
+
+theorem present_eq_filter_prec (ps : Pairs) (C : Nat) :
+    ((List.range C).filter fun c =>
+        ((support ps c : Q) != 0 || (tp ps c : Q) + (fp ps c : Q) != 0))
+      = present ps C := by
+  rw [← present_eq_filter]
+  apply List.filter_congr; intro c _
+  rw [← Rat.natCast_add, ← predicted_eq]
+
+theorem support_zero_of_not_present (ps : Pairs) (c : Nat)
+    (h : (support ps c != 0 || predicted ps c != 0) = false) : support ps c = 0 := by
+  simp at h; exact h.1
+
+theorem sum_support_present (ps : Pairs) (C : Nat) (h : ∀ p ∈ ps, p.2 < C) :
+    ((present ps C).map fun c => (support ps c : Q)).sum = (ps.length : Q) := by
+  unfold present
+  rw [sum_filter_of_zero, sum_support_range ps C h]
+  intro c _ hc
+  rw [support_zero_of_not_present ps c hc]; rfl
+
+theorem natCast_length_eq_zero {α : Type} (l : List α) : ((l.length : Q) = 0) ↔ l = [] := by
+  rw [Rat.natCast_eq_zero_iff, List.length_eq_zero_iff]
+
+theorem present_nil (C : Nat) : present [] C = [] := by
+  unfold present support predicted
+  simp
+
+/-! ### F1 -/
+
+theorem f1_pos (t P L : Q) (ht : 0 < t) (hP : 0 < P) (hL : 0 < L) : t / P + t / L ≠ 0 := by
+  have h1 : 0 < t * P := Rat.mul_pos ht hP
+  have h2 : 0 < t * L := Rat.mul_pos ht hL
+  intro h
+  have e : t * P + t * L = 0 := by grind
+  grind
+
+theorem f1_field (t P L : Q) (ht : 0 < t) (hP : 0 < P) (hL : 0 < L) :
+    2 * (t / P) * (t / L) / (t / P + t / L) = 2 * t / (L + P) := by
+  have h1 : P ≠ 0 := by grind
+  have h2 : L ≠ 0 := by grind
+  have h3 : t ≠ 0 := by grind
+  have h4 : L + P ≠ 0 := by grind
+  grind
+
+theorem f1One_eq_aux (t fp fn : Nat) :
+    f1One (t : Q) ((t + fn : Nat) : Q) ((t + fp : Nat) : Q) = ratio0 (2 * t) (2 * t + fp + fn) := by
+  have hfp : (0 : Q) ≤ (fp : Q) := Rat.natCast_nonneg
+  have hfn : (0 : Q) ≤ (fn : Q) := Rat.natCast_nonneg
+  by_cases h0 : t = 0
+  · subst h0
+    unfold f1One ratio0
+    have z : ∀ x : Q, (0 : Q) / x = 0 := by intro x; grind
+    simp [z, Rat.add_zero]
+  · have ht : (0 : Q) < (t : Q) := Rat.natCast_pos.mpr (by omega)
+    have hP : (0 : Q) < ((t + fp : Nat) : Q) := Rat.natCast_pos.mpr (by omega)
+    have hL : (0 : Q) < ((t + fn : Nat) : Q) := Rat.natCast_pos.mpr (by omega)
+    have hP0 : ((t + fp : Nat) : Q) ≠ 0 := by grind
+    have hL0 : ((t + fn : Nat) : Q) ≠ 0 := by grind
+    have hn : ¬ (2 * t + fp + fn = 0) := by omega
+    unfold f1One ratio0
+    simp only [hP0, hL0, or_self, if_false, f1_pos _ _ _ ht hP hL, hn, f1_field _ _ _ ht hP hL]
+    simp only [Rat.natCast_add, Rat.natCast_mul]
+    congr 1
+    grind
+
+theorem f1One_natCast (t l p : Nat) (hl : t ≤ l) (hp : t ≤ p) :
+    f1One (t : Q) (l : Q) (p : Q) = ratio0 (2 * t) (l + p) := by
+  have := f1One_eq_aux t (p - t) (l - t)
+  rw [show t + (l - t) = l by omega, show t + (p - t) = p by omega,
+    show 2 * t + (p - t) + (l - t) = l + p by omega] at this
+  exact this
+
+theorem f1_eq (ps : Pairs) (c : Nat) :
+    f1One (tp ps c : Q) (support ps c : Q) (predicted ps c : Q) = f1 ps c := by
+  rw [support_eq, predicted_eq, f1One_eq_aux]; rfl
+
+/-! ### confusion matrix -/
+
+theorem vzero_length (n : Nat) : (vzero n).length = n := by simp [vzero]
+
+/-- one confusion-matrix accumulation step -/
+def cmStep (m : Mat) (p : Nat × Nat) : Mat := m.modify p.1 (fun row => bump row p.2 1)
+
+theorem cmStep_length (m : Mat) (p : Nat × Nat) : (cmStep m p).length = m.length := by
+  simp [cmStep]
+
+theorem cmStep_getD (m : Mat) (p : Nat × Nat) (t : Nat) :
+    (cmStep m p).getD t [] = if p.1 = t then bump (m.getD t []) p.2 1 else m.getD t [] := by
+  unfold cmStep
+  simp only [List.getD_eq_getElem?_getD, List.getElem?_modify]
+  by_cases h : p.1 = t
+  · subst h
+    cases hm : m[p.1]? with
+    | none => simp [bump]
+    | some r => simp
+  · simp [h]
+
+theorem foldl_cmStep_length (ps : List (Nat × Nat)) (m : Mat) :
+    (ps.foldl cmStep m).length = m.length := by
+  induction ps generalizing m with
+  | nil => rfl
+  | cons p ps ih => simp [List.foldl_cons, ih, cmStep_length]
+
+theorem foldl_cmStep_row_length (ps : List (Nat × Nat)) (m : Mat) (t : Nat) :
+    ((ps.foldl cmStep m).getD t []).length = (m.getD t []).length := by
+  induction ps generalizing m with
+  | nil => rfl
+  | cons p ps ih =>
+    simp only [List.foldl_cons, ih, cmStep_getD]
+    split <;> simp [bump_length]
+
+theorem foldl_cmStep_entry (ps : List (Nat × Nat)) (m : Mat) (t p : Nat)
+    (hp : p < (m.getD t []).length) :
+    ((ps.foldl cmStep m).getD t []).getD p 0
+      = (m.getD t []).getD p 0 + (ps.countP fun q => q.1 == t && q.2 == p : Nat) := by
+  induction ps generalizing m with
+  | nil => simp [Rat.add_zero]
+  | cons q ps ih =>
+    simp only [List.foldl_cons]
+    rw [ih]
+    · rw [cmStep_getD, List.countP_cons, Rat.natCast_add]
+      by_cases h1 : q.1 = t
+      · rw [if_pos h1, bump_getD _ _ _ _ hp]
+        by_cases h2 : q.2 = p <;> simp [h1, h2] <;> grind
+      · simp [h1]; grind
+    · rw [cmStep_getD]; split
+      · simpa [bump_length] using hp
+      · exact hp
+
+theorem mzero_getD (C t : Nat) (ht : t < C) : (mzero C C).getD t [] = vzero C := by
+  simp [mzero, List.getD_eq_getElem?_getD, ht]
+
+theorem confusion_zip (preds labs : List Nat) (t p : Nat) :
+    confusion (preds.zip labs) t p = (labs.zip preds).countP fun q => q.1 == t && q.2 == p := by
+  unfold confusion
+  induction preds generalizing labs with
+  | nil => simp
+  | cons a preds ih =>
+    cases labs with
+    | nil => simp
+    | cons b labs => simp [List.countP_cons, ih]
+
+
+theorem eq_map_range_getD' {α : Type} (l : List α) (d : α) (n : Nat) (h : l.length = n) :
+    l = (List.range n).map fun c => l.getD c d := by
+  apply List.ext_getElem
+  · simp [h]
+  · intro i h1 h2
+    simp [List.getD_eq_getElem?_getD, List.getElem?_eq_getElem h1]
+
+theorem confusionUpdate_ok (preds labs : List Nat) (C : Nat)
+    (hp : preds.all (· < C) = true) (hl : labs.all (· < C) = true) :
+    confusionUpdate preds labs C = .ok ((List.range C).map fun t => (List.range C).map fun p =>
+      (confusion (preds.zip labs) t p : Q)) := by
+  unfold confusionUpdate
+  rw [hp, hl, Bool.and_self, if_pos rfl]
+  congr 1
+  show (labs.zip preds).foldl cmStep (mzero C C) = _
+  have hlen : ((labs.zip preds).foldl cmStep (mzero C C)).length = C := by
+    rw [foldl_cmStep_length]; simp [mzero]
+  rw [eq_map_range_getD' _ [] C hlen]
+  apply List.map_congr_left; intro t ht
+  have ht : t < C := by simpa using ht
+  have hrow : (((labs.zip preds).foldl cmStep (mzero C C)).getD t []).length = C := by
+    rw [foldl_cmStep_row_length, mzero_getD C t ht, vzero_length]
+  rw [eq_map_range_getD' _ (0 : Q) C hrow]
+  apply List.map_congr_left; intro p hp'
+  have hp' : p < C := by simpa using hp'
+  rw [foldl_cmStep_entry _ _ _ _ (by rw [mzero_getD C t ht, vzero_length]; exact hp'),
+    mzero_getD C t ht, vzero_getD, confusion_zip, Rat.zero_add]
+
+theorem confusionUpdate_err (preds labs : List Nat) (C : Nat)
+    (h : ¬ (preds.all (· < C) = true ∧ labs.all (· < C) = true)) :
+    confusionUpdate preds labs C = .error .runtime := by
+  unfold confusionUpdate
+  rw [if_neg]; simpa using h
+
+/-! ### accuracy -/
+
+theorem thresh_eq_binPred' (thr x : Q) : thresh thr x = binPred thr x := by
+  unfold thresh binPred
+  by_cases h : x < thr
+  · have : ¬ thr ≤ x := Rat.not_le.mpr h
+    simp [h, this]
+  · have : thr ≤ x := Rat.not_lt.mp h
+    simp [h, this]
+
+theorem qsum_b2q {α : Type} (l : List α) (f : α → Bool) :
+    qsum (l.map fun a => b2q (f a)) = (l.countP f : Nat) := by
+  rw [qsum_eq_sum]
+  induction l with
+  | nil => rfl
+  | cons a l ih =>
+    simp only [List.map_cons, List.sum_cons, ih, List.countP_cons, Rat.natCast_add]
+    cases f a <;> simp [b2q] <;> grind
+
+theorem binaryAccuracy_fst (thr : Q) (xs : List Q) (ys : List Nat) :
+    (binaryAccuracyUpdate thr xs (ys.map fun (y : Nat) => (y : Q))).1
+      = (correct ((xs.map (binPred thr)).zip ys) : Q) := by
+  unfold binaryAccuracyUpdate qcount correct
+  simp only
+  congr 1
+  rw [show xs.zip (ys.map fun (y : Nat) => (y : Q)) = (xs.zip ys).map (Prod.map id fun (y : Nat) => (y : Q)) by
+        rw [← List.zip_map]; simp,
+      show (xs.map (binPred thr)).zip ys = (xs.zip ys).map (Prod.map (binPred thr) id) by
+        rw [← List.zip_map]; simp,
+      List.countP_map, List.countP_map]
+  apply List.countP_congr; intro p _
+  simp [thresh_eq_binPred', Rat.natCast_inj]
+
+theorem sumAt_mask {α : Type} (xs : List α) (labs : List Nat) (f : α × Nat → Bool) (c : Nat) :
+    sumAt (labs.zip ((xs.zip labs).map fun p => b2q (f p))) c
+      = ((xs.zip labs).countP fun p => p.2 == c && f p : Nat) := by
+  induction xs generalizing labs with
+  | nil => simp [sumAt_nil]
+  | cons x xs ih =>
+    cases labs with
+    | nil => simp [sumAt_nil]
+    | cons l labs =>
+      simp only [List.zip_cons_cons, List.map_cons, sumAt_cons, ih, List.countP_cons, Rat.natCast_add]
+      by_cases h : l = c <;> cases hf : f (x, l) <;> simp [h, b2q] <;> grind
+
+theorem scatterAdd_mask {α : Type} (xs : List α) (labs : List Nat) (f : α × Nat → Bool) (C : Nat)
+    (hl : labs.all (· < C) = true) :
+    scatterAdd C labs ((xs.zip labs).map fun p => b2q (f p))
+      = .ok ((List.range C).map fun c => ((xs.zip labs).countP fun p => p.2 == c && f p : Nat)) := by
+  rw [scatterAdd_ok _ _ _ hl]
+  simp only [sumAt_mask]
+
+theorem mcAccFromMask_mask {α : Type} (xs : List α) (labs : List Nat) (f : α × Nat → Bool)
+    (avg : Avg) (C : Nat) (hl : labs.all (· < C) = true) (havg : avg ≠ .micro) :
+    mcAccFromMask ((xs.zip labs).map fun p => b2q (f p)) labs avg C
+      = .ok ((List.range C).map fun c => ((xs.zip labs).countP fun p => p.2 == c && f p : Nat),
+             (List.range C).map fun c => (labs.count c : Q)) := by
+  have h1 := scatterAdd_mask xs labs f C hl
+  have h2 := scatterOnes_ok C labs hl
+  cases avg <;> first | exact absurd rfl havg | skip
+  all_goals simp only [mcAccFromMask, h1, h2, bind, Except.bind]
+
+theorem tp_eq_mask_count (ps : Pairs) (c : Nat) :
+    (ps.countP fun p => p.2 == c && p.1 == p.2) = tp ps c := by
+  unfold tp
+  apply List.countP_congr; intro p _; simp; omega
+
+/-! ### argmax -/
+
+theorem argmax_go_spec (row : List Q) (l : List Q) (i best : Nat) (bv : Q)
+    (hl : row.drop i = l) (hi : i ≤ row.length) (hb : best < i) (hbv : row.getD best 0 = bv)
+    (hmax : ∀ j, j < i → row.getD j 0 ≤ bv) (hfirst : ∀ j, j < best → row.getD j 0 < bv) :
+    argmaxFirst.go l i best bv < row.length ∧
+    (∀ j, j < row.length → row.getD j 0 ≤ row.getD (argmaxFirst.go l i best bv) 0) ∧
+    (∀ j, j < argmaxFirst.go l i best bv → row.getD j 0 < row.getD (argmaxFirst.go l i best bv) 0) := by
+  induction l generalizing i best bv with
+  | nil =>
+    have : i = row.length := by
+      have := congrArg List.length hl
+      simp at this; omega
+    subst this
+    simp only [argmaxFirst.go]
+    refine ⟨hb, ?_, ?_⟩
+    · intro j hj; rw [hbv]; exact hmax j hj
+    · intro j hj; rw [hbv]; exact hfirst j hj
+  | cons x xs ih =>
+    have hi' : i < row.length := by
+      have := congrArg List.length hl
+      simp at this; omega
+    rw [List.drop_eq_getElem_cons hi'] at hl
+    have hx : row.getD i 0 = x := by
+      simp [List.getD_eq_getElem?_getD, List.getElem?_eq_getElem hi']
+      exact (List.cons.inj hl).1
+    have hxs : row.drop (i + 1) = xs := (List.cons.inj hl).2
+    simp only [argmaxFirst.go]
+    by_cases hlt : bv < x
+    · rw [if_pos hlt]
+      apply ih (i + 1) i x hxs (by omega) (by omega) hx
+      · intro j hj
+        by_cases hji : j = i
+        · subst hji; rw [hx]; exact Rat.le_refl
+        · have := hmax j (by omega); grind
+      · intro j hj
+        have := hmax j hj; grind
+    · rw [if_neg hlt]
+      apply ih (i + 1) best bv hxs (by omega) (by omega) hbv
+      · intro j hj
+        by_cases hji : j = i
+        · subst hji; rw [hx]; grind
+        · exact hmax j (by omega)
+      · exact hfirst
+
+theorem argmaxFirst_ok (row : List Q) (h : row ≠ []) :
+    argmaxFirst row < row.length ∧
+    (∀ j, j < row.length → row.getD j 0 ≤ row.getD (argmaxFirst row) 0) ∧
+    (∀ j, j < argmaxFirst row → row.getD j 0 < row.getD (argmaxFirst row) 0) := by
+  cases row with
+  | nil => exact absurd rfl h
+  | cons x xs =>
+    simp only [argmaxFirst]
+    apply argmax_go_spec (x :: xs) xs 1 0 x rfl (by simp) (by omega) rfl
+    · intro j hj
+      have : j = 0 := by omega
+      subst this; simp
+    · intro j hj; omega
+
+/-! ### multilabel criteria -/
+
+theorem b2q_all_eq {α : Type} (l : List α) (f : α → Bool) (P : α → Prop)
+    [Decidable (∀ p ∈ l, P p)] (h : ∀ p ∈ l, (f p = true ↔ P p)) :
+    b2q (l.all f) = if ∀ p ∈ l, P p then 1 else 0 := by
+  by_cases hP : ∀ p ∈ l, P p
+  · rw [if_pos hP]
+    have : l.all f = true := List.all_eq_true.mpr fun p hp => (h p hp).mpr (hP p hp)
+    simp [b2q, this]
+  · rw [if_neg hP]
+    have : ¬ l.all f = true := fun e => hP fun p hp => (h p hp).mp (List.all_eq_true.mp e p hp)
+    simp [b2q, this]
+
+theorem b2q_any_eq {α : Type} (l : List α) (f : α → Bool) (P : α → Prop)
+    [Decidable (∃ p ∈ l, P p)] (h : ∀ p ∈ l, (f p = true ↔ P p)) :
+    b2q (l.any f) = if ∃ p ∈ l, P p then 1 else 0 := by
+  by_cases hP : ∃ p ∈ l, P p
+  · rw [if_pos hP]
+    obtain ⟨p, hp, hpp⟩ := hP
+    have : l.any f = true := List.any_eq_true.mpr ⟨p, hp, (h p hp).mpr hpp⟩
+    simp [b2q, this]
+  · rw [if_neg hP]
+    have : ¬ l.any f = true := fun e => by
+      obtain ⟨p, hp, hf⟩ := List.any_eq_true.mp e
+      exact hP ⟨p, hp, (h p hp).mp hf⟩
+    simp [b2q, this]
+
+theorem zip_all_eq_iff (a b : List Q) (h : a.length = b.length) :
+    (∀ p ∈ a.zip b, p.1 = p.2) ↔ a = b := by
+  induction a generalizing b with
+  | nil => cases b with
+    | nil => simp
+    | cons y b => simp at h
+  | cons x a ih =>
+    cases b with
+    | nil => simp at h
+    | cons y b =>
+      have h' : a.length = b.length := by simpa using h
+      simp only [List.zip_cons_cons, List.mem_cons, forall_eq_or_imp, ih b h', List.cons.injEq]
+
+theorem ml_exact (inp tgt : List Q) (h : inp.length = tgt.length) :
+    mlRowCorrect .exact inp tgt = if inp = tgt then 1 else 0 := by
+  simp only [mlRowCorrect]
+  rw [b2q_all_eq _ _ (fun p => p.1 = p.2) (by intro p _; simp)]
+  simp only [zip_all_eq_iff inp tgt h]
+
+theorem ml_contain (inp tgt : List Q)
+    (h01 : ∀ p ∈ inp.zip tgt, (p.1 = 0 ∨ p.1 = 1) ∧ (p.2 = 0 ∨ p.2 = 1)) :
+    mlRowCorrect .contain inp tgt = if ∀ p ∈ inp.zip tgt, p.2 = 1 → p.1 = 1 then 1 else 0 := by
+  simp only [mlRowCorrect]
+  apply b2q_all_eq
+  intro p hp
+  obtain ⟨h1, h2⟩ := h01 p hp
+  simp only [decide_eq_true_eq]
+  rcases h1 with h1 | h1 <;> rcases h2 with h2 | h2 <;> rw [h1, h2] <;> grind
+
+theorem ml_belong (inp tgt : List Q)
+    (h01 : ∀ p ∈ inp.zip tgt, (p.1 = 0 ∨ p.1 = 1) ∧ (p.2 = 0 ∨ p.2 = 1)) :
+    mlRowCorrect .belong inp tgt = if ∀ p ∈ inp.zip tgt, p.1 = 1 → p.2 = 1 then 1 else 0 := by
+  simp only [mlRowCorrect]
+  apply b2q_all_eq
+  intro p hp
+  obtain ⟨h1, h2⟩ := h01 p hp
+  simp only [decide_eq_true_eq]
+  rcases h1 with h1 | h1 <;> rcases h2 with h2 | h2 <;> rw [h1, h2] <;> grind
+
+theorem ml_overlap (inp tgt : List Q) :
+    mlRowCorrect .overlap inp tgt
+      = if (∃ p ∈ inp.zip tgt, p.1 = 1 ∧ p.2 = 1) ∨ (∀ p ∈ inp.zip tgt, p.1 = 0 ∧ p.2 = 0)
+        then 1 else 0 := by
+  simp only [mlRowCorrect]
+  rw [b2q_any_eq _ _ (fun p => p.1 = 1 ∧ p.2 = 1) (by intro p _; simp; grind),
+      b2q_all_eq _ _ (fun p => p.1 = 0 ∧ p.2 = 0) (by intro p _; simp)]
+  by_cases hA : ∃ p ∈ inp.zip tgt, p.1 = 1 ∧ p.2 = 1
+  · have hB : ¬ ∀ p ∈ inp.zip tgt, p.1 = 0 ∧ p.2 = 0 := by
+      obtain ⟨p, hp, h1, _⟩ := hA
+      intro hB
+      have := (hB p hp).1
+      rw [h1] at this; grind
+    rw [if_pos hA, if_neg hB, if_pos (Or.inl hA), Rat.add_zero]
+  · by_cases hB : ∀ p ∈ inp.zip tgt, p.1 = 0 ∧ p.2 = 0
+    · rw [if_neg hA, if_pos hB, if_pos (Or.inr hB), Rat.zero_add]
+    · rw [if_neg hA, if_neg hB, if_neg (by intro h; cases h <;> contradiction), Rat.add_zero]
+
+theorem ml_hamming (inp tgt : List Q) :
+    mlRowCorrect .hamming inp tgt = ((inp.zip tgt).countP fun p => p.1 == p.2 : Nat) := rfl
+
+theorem ml_zero_one (crit : Crit) (inp tgt : List Q) (h : crit ≠ .hamming) :
+    mlRowCorrect crit inp tgt = 0 ∨ mlRowCorrect crit inp tgt = 1 := by
+  cases crit
+  · simp only [mlRowCorrect, b2q]; split <;> simp
+  · exact absurd rfl h
+  · rw [ml_overlap]; split <;> simp
+  · simp only [mlRowCorrect, b2q]; split <;> simp
+  · simp only [mlRowCorrect, b2q]; split <;> simp
+
+theorem sum_zero_one {α : Type} (l : List α) (g : α → Q) (h : ∀ a ∈ l, g a = 0 ∨ g a = 1) :
+    (l.map g).sum = (l.countP fun a => g a == 1 : Nat) := by
+  induction l with
+  | nil => rfl
+  | cons a l ih =>
+    have ih' := ih fun b hb => h b (List.mem_cons_of_mem _ hb)
+    simp only [List.map_cons, List.sum_cons, ih', List.countP_cons, Rat.natCast_add]
+    rcases h a List.mem_cons_self with h0 | h1
+    · rw [h0]; simp; grind
+    · rw [h1]; simp; grind
+
+/-! ### binary precision / recall / F1 -/
+
+theorem binPred_cases (thr x : Q) : binPred thr x = 0 ∨ binPred thr x = 1 := by
+  unfold binPred; split <;> simp
+
+theorem mul_b2q (b y : Nat) (hb : b = 0 ∨ b = 1) (hy : y ≤ 1) :
+    ((b : Nat) : Q) * ((y : Nat) : Q) = b2q (b == 1 && y == 1) := by
+  obtain rfl | rfl : y = 0 ∨ y = 1 := by omega
+  all_goals rcases hb with rfl | rfl <;> simp [b2q] <;> grind
+
+theorem land_b2q (b y : Nat) (hb : b = 0 ∨ b = 1) (hy : y ≤ 1) :
+    ((Nat.land b y : Nat) : Q) = b2q (b == 1 && y == 1) := by
+  obtain rfl | rfl : y = 0 ∨ y = 1 := by omega
+  all_goals rcases hb with rfl | rfl
+  · rw [show Nat.land 0 0 = 0 by decide]; simp [b2q]
+  · rw [show Nat.land 1 0 = 0 by decide]; simp [b2q]
+  · rw [show Nat.land 0 1 = 0 by decide]; simp [b2q]
+  · rw [show Nat.land 1 1 = 1 by decide]; simp [b2q]
+
+theorem cast_b2q (y : Nat) (hy : y ≤ 1) : ((y : Nat) : Q) = b2q (y == 1) := by
+  obtain rfl | rfl : y = 0 ∨ y = 1 := by omega
+  all_goals simp [b2q] <;> rfl
+
+theorem tp_binary (thr : Q) (xs : List Q) (ys : List Nat) :
+    tp ((xs.map (binPred thr)).zip ys) 1
+      = (xs.zip ys).countP fun p => binPred thr p.1 == 1 && p.2 == 1 := by
+  unfold tp
+  rw [List.zip_map_left, List.countP_map]; rfl
+
+theorem binary_tp_mul (thr : Q) (xs : List Q) (ys : List Nat) (h01 : ∀ y ∈ ys, y ≤ 1) :
+    qsum ((xs.zip (ys.map fun (y : Nat) => (y : Q))).map fun p => ((thresh thr p.1 : Nat) : Q) * p.2)
+      = (tp ((xs.map (binPred thr)).zip ys) 1 : Q) := by
+  rw [tp_binary, ← qsum_b2q, List.zip_map_right, List.map_map]
+  congr 1
+  apply List.map_congr_left; intro p hp
+  simp only [Function.comp, Prod.map, id, thresh_eq_binPred']
+  exact mul_b2q _ _ (binPred_cases thr p.1) (h01 _ (List.of_mem_zip hp).2)
+
+theorem binary_tp_land (thr : Q) (xs : List Q) (ys : List Nat) (h01 : ∀ y ∈ ys, y ≤ 1) :
+    qsum ((xs.zip ys).map fun p => ((Nat.land (thresh thr p.1) p.2 : Nat) : Q))
+      = (tp ((xs.map (binPred thr)).zip ys) 1 : Q) := by
+  rw [tp_binary, ← qsum_b2q]
+  congr 1
+  apply List.map_congr_left; intro p hp
+  simp only [thresh_eq_binPred']
+  exact land_b2q _ _ (binPred_cases thr p.1) (h01 _ (List.of_mem_zip hp).2)
+
+theorem binary_predicted (thr : Q) (xs : List Q) (ys : List Nat) (hlen : xs.length ≤ ys.length) :
+    qsum (xs.map fun x => ((thresh thr x : Nat) : Q))
+      = (predicted ((xs.map (binPred thr)).zip ys) 1 : Q) := by
+  have e : predicted ((xs.map (binPred thr)).zip ys) 1 = xs.countP fun x => binPred thr x == 1 := by
+    unfold predicted
+    have := List.countP_map (p := fun c : Nat => c == 1) (f := Prod.fst)
+      (l := (xs.map (binPred thr)).zip ys)
+    rw [List.map_fst_zip (by simpa using hlen), List.countP_map] at this
+    exact this.symm
+  rw [e, ← qsum_b2q]
+  congr 1
+  apply List.map_congr_left; intro x _
+  simp only [thresh_eq_binPred']
+  rcases binPred_cases thr x with h | h <;> rw [h] <;> simp [b2q] <;> rfl
+
+theorem binary_support (thr : Q) (xs : List Q) (ys : List Nat) (hlen : ys.length ≤ xs.length)
+    (h01 : ∀ y ∈ ys, y ≤ 1) :
+    qsum (ys.map fun (y : Nat) => (y : Q)) = (support ((xs.map (binPred thr)).zip ys) 1 : Q) := by
+  have e : support ((xs.map (binPred thr)).zip ys) 1 = ys.countP fun y => y == 1 := by
+    unfold support
+    have := List.countP_map (p := fun c : Nat => c == 1) (f := Prod.snd)
+      (l := (xs.map (binPred thr)).zip ys)
+    rw [List.map_snd_zip (by simpa using hlen)] at this
+    exact this.symm
+  rw [e, ← qsum_b2q]
+  congr 1
+  apply List.map_congr_left; intro y hy
+  exact cast_b2q y (h01 y hy)
+
 end TE.CountL
